@@ -137,6 +137,12 @@ func TestC11Rapid(t *testing.T) {
 		} else {
 			o.ElNames = []string{"a", "qa", "a-1"}
 		}
+		wide := rapid.IntRange(0, 9).Draw(rt, "wide") == 0
+		if wide {
+			// sibling indexes of two digits: (1,12) and (11,2) must not share an identity key
+			o.WideFan, o.MaxAttrs, o.PElem = 13, 0, 9
+			o.ElNames = []string{"a"}
+		}
 		doc := xgen.Doc(rt, o)
 		ctx := xgen.Context(rt, doc, 5)
 		g := xgen.NewG(rt, doc)
@@ -176,7 +182,15 @@ func TestC11Rapid(t *testing.T) {
 			e = &xast.Bin{Op: "|", L: operand(), R: operand()}
 		}
 		l := &harness.Live{Property: "C11", Check: "C11/union", Doc: doc, Ctx: ctx, AST: e, Expr: xast.Render(e), Flavour: flavourOf(rt)}
+		if wide {
+			// unions over the whole wide level, so that nodes with colliding index paths meet in one de-duplication table
+			e = &xast.Bin{Op: "|", L: &xast.Path{Abs: true, Steps: []interface{}{xast.DSlash{}, &xast.Step{Axis: "child", Test: xast.NodeTest{Kind: rapid.SampledFrom([]string{"wild", "node"}).Draw(rt, "wtest")}, Abbr: true}}}, R: operand()}
+			l.AST, l.Expr = e, xast.Render(e)
+		}
 		info, f := oracleC11(l)
+		if wide {
+			info.labels = append(info.labels, "doc:wide")
+		}
 		if f != nil {
 			if inconclusive(uC11, f) {
 				return
